@@ -100,6 +100,8 @@ def run(ctx: Ctx):
 
     res.rule("PERM-SPACE", "aligned component order: index-space typing of the matching permutation (shared with C20) -- cp_permute_factors picks the columns of the tensor to permute with a permutation whose values refer to that tensor and whose positions are the reference's components", floor=3)
     ctx.guarded(perm_space, ctx)
+    res.rule("GUARD-EXACT", "normalisers: the scale that divides a factor and the scale absorbed into the weights / core are the same value, or differ only by a guard `where(<scale is exactly zero>, 1, scale)`; a guard with a threshold (eps, tolerance) divides a non-null column by 1 while the weights / core are still multiplied by its norm, which changes the represented tensor", floor=3)
+    ctx.guarded(guard_exact, ctx)
 
 
 def degree_conserved(ctx: Ctx):
@@ -288,3 +290,84 @@ def lost_rebind(ctx: Ctx):
                     ctx.finding("LOST-REBIND", f, v.node.ast if v.node is not None else f.node, v.message, construct=f"{f.name}: `{v.key[1]}` re-bound before return {operand}", path=v.path)
     if n == 0:
         raise AnalysisError("LOST-REBIND: no transform returns its operand any more; the rule's anchors vanished")
+
+
+# ---------------------------------------------------------------------------------
+# GUARD-EXACT: the divisor and the absorbed multiplier of a normaliser agree
+# ---------------------------------------------------------------------------------
+NORMALISERS = ["tensorly.cp_tensor.cp_normalize", "tensorly.tucker_tensor.tucker_normalize", "tensorly.parafac2_tensor.parafac2_normalise"]
+
+
+def _strip_layout(e):
+    while isinstance(e, ast.Call) and (call_name(e) or "") in ("reshape", "transpose", "tensor", "copy") and e.args:
+        e = e.args[0]
+    return e
+
+
+def _exact_zero_test(cond, scale_src):
+    """(kind) 'zero' when cond is true exactly where the (non-negative) scale is 0, 'nonzero' for the
+    complement, None when it is a test against something else (a threshold)."""
+    if isinstance(cond, ast.UnaryOp) and isinstance(cond.op, ast.Not):
+        k = _exact_zero_test(cond.operand, scale_src)
+        return {"zero": "nonzero", "nonzero": "zero"}.get(k)
+    if not (isinstance(cond, ast.Compare) and len(cond.ops) == 1):
+        return None
+    l, r, op = cond.left, cond.comparators[0], cond.ops[0]
+    flip = {ast.Lt: ast.Gt, ast.LtE: ast.GtE, ast.Gt: ast.Lt, ast.GtE: ast.LtE, ast.Eq: ast.Eq, ast.NotEq: ast.NotEq}
+    if src(_strip_layout(r)) == scale_src and not src(_strip_layout(l)) == scale_src:
+        l, r, op = r, l, flip[type(op)]()
+    if src(_strip_layout(l)) != scale_src:
+        return None
+    if not (isinstance(r, ast.Constant) and isinstance(r.value, (int, float)) and r.value == 0):
+        return None
+    # the scale is a norm: >= 0
+    if isinstance(op, (ast.Eq, ast.LtE)):
+        return "zero"
+    if isinstance(op, (ast.NotEq, ast.Gt)):
+        return "nonzero"
+    return None
+
+
+def guard_exact(ctx: Ctx):
+    from .state import _resolve_at
+
+    res = ctx.res
+    n = 0
+    for qname in NORMALISERS:
+        f = ctx.repo.func(qname)
+        stmts = [st for st in ast.walk(f.node) if isinstance(st, ast.stmt) and not isinstance(st, (ast.If, ast.For, ast.While, ast.With, ast.Try, ast.FunctionDef))]
+        # names bound to column norms
+        norm_names = set()
+        for st in stmts:
+            if isinstance(st, ast.Assign) and len(st.targets) == 1 and isinstance(st.targets[0], ast.Name) and isinstance(st.value, ast.Call) and (call_name(st.value) or "") == "norm":
+                norm_names.add(st.targets[0].id)
+        if not norm_names:
+            raise AnalysisError(f"GUARD-EXACT: {qname} no longer computes column norms into a local; cannot decide")
+        for st in stmts:
+            for d in ast.walk(st):
+                if not (isinstance(d, ast.BinOp) and isinstance(d.op, ast.Div)):
+                    continue
+                den = _strip_layout(_resolve_at(d.right, st, f.node, depth=1) if isinstance(_strip_layout(d.right), ast.Name) and _strip_layout(d.right).id not in norm_names else d.right)
+                den = _strip_layout(den)
+                if isinstance(den, ast.Name) and den.id in norm_names:
+                    n += 1
+                    res.instance("GUARD-EXACT", f"{f.name}: / {src(d.right)[:40]}", sample={"divisor": src(den), "guard": None, "ok": True})
+                    continue
+                if isinstance(den, ast.Call) and (call_name(den) or "") == "where" and len(den.args) == 3:
+                    cond, a, b = den.args
+                    sa, sb = _strip_layout(a), _strip_layout(b)
+                    scale = sb if isinstance(sb, ast.Name) and sb.id in norm_names else (sa if isinstance(sa, ast.Name) and sa.id in norm_names else None)
+                    if scale is None:
+                        continue
+                    n += 1
+                    kind = _exact_zero_test(cond, scale.id)
+                    want = "zero" if scale is sb else "nonzero"
+                    ok = kind == want
+                    res.instance("GUARD-EXACT", f"{f.name}: / {src(d.right)[:40]}", sample={"divisor": src(den)[:100], "guard": src(cond), "guard_is_exact_zero_test": ok, "ok": ok})
+                    if not ok:
+                        if kind is None:
+                            ctx.finding("GUARD-EXACT", f, cond, f"{f.name}: the divisor `{src(den)[:90]}` replaces the norm `{scale.id}` by a constant under `{src(cond)[:60]}`, which is not an exact-zero test: a non-null column whose norm passes the test is left un-normalised while the weights / core are still multiplied by `{scale.id}`, so the represented tensor changes by that factor", construct=f"{f.name}: guard `{src(cond)[:50]}` is not an exact zero test")
+                        else:
+                            ctx.finding("GUARD-EXACT", f, cond, f"{f.name}: the guard `{src(cond)[:60]}` selects the constant for the non-null columns and the norm for the null ones (branches swapped)", construct=f"{f.name}: guard branches swapped")
+    if n == 0:
+        raise AnalysisError("GUARD-EXACT: no division by a column norm found in the normalisers; cannot decide")
